@@ -461,9 +461,12 @@ def check_obj(ctx, s, c, H, Mc, D, const, spec_reqs, model_reqs, n_occ):
         s.count('state:' + ('default' if occ is None else 'explicit'))
         s.float_comparisons += 3
         r = {'energy': float(np.real(E))}
+        # the Givens sweeps of the library leave matrix elements below EQ_TOLERANCE = 1e-8 unrotated, so its states are
+        # accurate to about EQ_TOLERANCE x ||H|| (not a property of H: a fixed pruning threshold of the implementation)
+        STOL = max(TOL, 1e-8 * max(1.0, float(np.max(np.abs(w)))))
         if abs(np.linalg.norm(psi) - 1) > TOL:
             s.violate('gaussian state is not normalised (%.3g)' % np.linalg.norm(psi), cc, r)
-        elif np.linalg.norm(Hd @ psi - E * psi) > TOL:
+        elif np.linalg.norm(Hd @ psi - E * psi) > STOL:
             s.violate('gaussian state is not an eigenstate with the returned energy (residual %.3g)'
                       % np.linalg.norm(Hd @ psi - E * psi), cc, r)
         elif occ is None and abs(np.real(E) - w[0]) > TOL:
@@ -1197,7 +1200,8 @@ def run_sector_case(ctx, s, c, spec_reqs, model_reqs):
             psi = simulate_description(of, desc, start, h)
             E = float(np.real(np.vdot(psi, Hs @ psi)))
             s.float_comparisons += 3
-            if abs(np.linalg.norm(psi) - 1) > TOL or np.linalg.norm(Hs @ psi - E * psi) > TOL:
+            STOL = max(TOL, 1e-8 * max(1.0, float(np.max(np.abs(ws)))))     # pruning threshold of the Givens sweeps
+            if abs(np.linalg.norm(psi) - 1) > TOL or np.linalg.norm(Hs @ psi - E * psi) > STOL:
                 s.violate('default state of spin sector %d is not an eigenstate of the sector Hamiltonian' % sct, cs, ret)
             elif abs(E - ws[0]) > TOL:
                 s.violate('default state of spin sector %d is not the ground state of the sector (E = %.12g, lowest = %.12g)'
@@ -1211,7 +1215,7 @@ def run_sector_case(ctx, s, c, spec_reqs, model_reqs):
             psi = simulate_description(of, desc, [int(x) for x in start], h)
             Eo = float(np.sum(e_s[occ]) + const)
             s.float_comparisons += 1
-            if np.linalg.norm(Hs @ psi - Eo * psi) > TOL or abs(np.linalg.norm(psi) - 1) > TOL:
+            if np.linalg.norm(Hs @ psi - Eo * psi) > STOL or abs(np.linalg.norm(psi) - 1) > TOL:
                 s.violate('state of spin sector %d with occupied orbitals %s is not an eigenstate with energy sum eps + constant'
                           % (sct, occ), cs, ret)
         except Exception as e:
